@@ -106,6 +106,9 @@ Proof. vm_compute. repeat split. Qed.
 Lemma ex_metas : metas_encoded ex_s0 ex_cs.
 Proof. vm_compute. repeat split. Qed.
 
+Lemma ex_metas_oracle : metas_oracle_ok ex_orc ex_s0 ex_cs.
+Proof. apply metas_oracle_of_encoded. exact ex_metas. Qed.
+
 Lemma ex_oracle : oracle_ok ex_orc ex_cs.
 Proof.
   unfold oracle_ok, ex_cs.
@@ -119,7 +122,7 @@ Proof. vm_compute. discriminate. Qed.
 (* 6. all hypotheses of C01_round_trip hold, and this is what the theorem says for the instance *)
 Example C01_round_trip_ex :
   writer_init ex_enc0 ex_ver = (ex_s0, Ok tt) /\ enc_ok ex_enc0 /\
-  Forall call_good ex_cs /\ accepted ex_s0 ex_cs /\ metas_encoded ex_s0 ex_cs /\ guesses_ok ex_s0 ex_cs /\
+  Forall call_good ex_cs /\ accepted ex_s0 ex_cs /\ metas_oracle_ok ex_orc ex_s0 ex_cs /\ guesses_ok ex_s0 ex_cs /\
   oracle_ok ex_orc ex_cs /\
   (Z.of_nat (length (w_out (snd (run_calls ex_s0 ex_cs)))) <= sys_maxsize)%Z /\
   length (w_out (snd (run_calls ex_s0 ex_cs))) = 857 /\
@@ -127,11 +130,11 @@ Example C01_round_trip_ex :
   read_all ex_orc 96 (w_out (snd (run_calls ex_s0 ex_cs))) = (ex_records, TEnd).
 Proof.
   split; [exact ex_init|]. split; [exact ex_enc0_ok|]. split; [exact ex_good|]. split; [exact ex_accepted|].
-  split; [exact ex_metas|]. split; [exact ex_guesses|]. split; [exact ex_oracle|]. split; [exact ex_size|].
+  split; [exact ex_metas_oracle|]. split; [exact ex_guesses|]. split; [exact ex_oracle|]. split; [exact ex_size|].
   split; [vm_compute; reflexivity|].
   assert (E : main_record ex_enc0 ex_ver :: expected_records ex_s0 1 ex_cs = ex_records) by (vm_compute; reflexivity).
   split; [exact E|]. rewrite <- E.
-  apply (C01_round_trip ex_enc0 ex_ver ex_s0 ex_cs ex_orc 96 ex_init ex_enc0_ok ex_good ex_accepted ex_metas ex_guesses ex_oracle);
+  apply (C01_round_trip ex_enc0 ex_ver ex_s0 ex_cs ex_orc 96 ex_init ex_enc0_ok ex_good ex_accepted ex_metas_oracle ex_guesses ex_oracle);
     [lia | exact ex_size].
 Qed.
 
